@@ -89,6 +89,7 @@ func (c08) Plan(tier string, seed int64) []core.Scenario {
 	for i := 0; i < nw; i++ {
 		out = append(out, core.Sc("w1").WithN("variant", i%4))
 		out = append(out, core.Sc("w5").WithN("variant", i%3))
+		out = append(out, core.Sc("w5").WithN("variant", 3))
 	}
 	for i := range out {
 		out[i].Seed = seed*49979687 + int64(i)
@@ -542,6 +543,20 @@ func (c08) w5(sc core.Scenario, r *core.R) {
 			pol.WaitPoint("ws.exec.frame", 1, pol.Count("ws.exec.frame", 1), 20*time.Millisecond)
 		}
 	}})
+	nStreams := 4
+	if v == 3 {
+		// precise form: the executor holds the first close notification back, cuts the connection, and lets the
+		// queued close notifications run only once the close-all sweep has passed its first sink; the sweep is
+		// slowed down per sink so that both alternate on the table lock
+		nStreams = 8
+		var cut sync.Once
+		pol.Rules = append(pol.Rules,
+			&core.Rule{Point: "ws.exec.frame", Side: 1, Arg: "xrpc.ch.close", Do: func(jsonrpc.VerifEvent) {
+				cut.Do(func() { env.Px.KillAll(wsproxy.RST) })
+				pol.WaitPoint("ws.closechans.each", 1, 1, 500*time.Millisecond)
+			}},
+			&core.Rule{Point: "ws.closechans.each", Side: 1, Do: func(jsonrpc.VerifEvent) { time.Sleep(2 * time.Millisecond) }})
+	}
 	defer pol.Install()()
 	cl, err := env.NewClient(ClientOpt{Opts: []jsonrpc.Option{jsonrpc.WithReconnectBackoff(5*time.Millisecond, 20*time.Millisecond)}})
 	if err != nil {
@@ -551,7 +566,7 @@ func (c08) w5(sc core.Scenario, r *core.R) {
 	bg := context.Background()
 	var gs []*got
 	var toks []string
-	for i := 0; i < 4; i++ {
+	for i := 0; i < nStreams; i++ {
 		t := Tok("a")
 		env.Svc.Hold(t)
 		ch, err := cl.Sub(bg, t, 3, svc.SGoroutine)
@@ -564,6 +579,9 @@ func (c08) w5(sc core.Scenario, r *core.R) {
 	}
 	// let the handlers send and close (close notifications on the wire) and cut at the same time
 	go func() {
+		if v == 3 {
+			return // the executor rule cuts the connection
+		}
 		if v == 2 {
 			time.Sleep(300 * time.Microsecond)
 		}
@@ -586,5 +604,6 @@ func (c08) w5(sc core.Scenario, r *core.R) {
 	r.Key(fmt.Sprintf("w5 v%d sig=%s", v, core.Log.Signature()[:6]), true)
 	r.Obs("w5_runs", 1)
 	r.Sig(core.Log.Signature())
-	r.Sample(map[string]interface{}{"window": "close notification ∥ close-all", "variant": v, "streams": 4})
+	r.Obs("w5_precise_formed", b2i(v == 3 && pol.Count("ws.closechans.each", 1) > 1))
+	r.Sample(map[string]interface{}{"window": "close notification ∥ close-all", "variant": v, "streams": nStreams, "sweep_steps": pol.Count("ws.closechans.each", 1)})
 }
